@@ -1268,6 +1268,14 @@ class HeapExec(NumExec):
 
     # ------------------------------------------------------------------ running a function
     def run_fn(s, fn, p):
+        # an exception of the ANALYSIS while it executes the code under check (a construct the executor does not model, met in a form it did not expect) is
+        # `outside the verified subset` (undecided, with the native fallback), not a fault of the checker
+        try:
+            return s._run_fn_impl(fn, p)
+        except (AttributeError, TypeError, KeyError, IndexError, ValueError, AssertionError, z3.Z3Exception) as ex_:
+            raise Unsupported(f"analysis error {type(ex_).__name__}: {str(ex_)[:200]}")
+
+    def _run_fn_impl(s, fn, p):
         s.fn_line = fn.lineno
         # loop ordinal = syntactic position of the loop in the function (the same loop may be reached on several paths)
         loops = sorted([(n.lineno, n.col_offset) for n in ast.walk(fn) if isinstance(n, (ast.For, ast.While))])
